@@ -8,6 +8,17 @@ HERE = os.path.dirname(os.path.dirname(os.path.abspath(__file__)))
 
 # id -> (technique, level text, level note, design ref)
 CLAIMS = {
+    "C18": (
+        "dataflow / structural rules on the alias-table construction (mass moved = mass removed, refiling, flushing), the "
+        "sampling coin, and the cell-veto proposal (paired choice of walker and bound component, candidate-time formula)",
+        "Decides the structural part of exact proportional sampling: the reported total is the sum of the rates and the "
+        "mean is total/n; every two-entry row moves exactly mean - small.rate from a large item, which is refiled by "
+        "comparison with the mean; leftovers of both lists get full rows; sampling is a uniform row plus one coin against "
+        "the first entry; the cell-veto handler proposes at total x charge factor x speed, picks walker and bound component "
+        "in the same charge-sign branch and confirms against the bound of the sampled cell and direction. Exactness of the "
+        "table on concrete float vectors and the measure-zero draw 0.0 for zero-rate cells are not decided.",
+        "Trusted: the enumerated idioms of Walker._build_table / sample_cell (one pairing loop, two flush loops).",
+        "DESIGN.md section 3, C18"),
     "C04": (
         "normal-form extraction of every confirmation test (uniform draw vs rate) in the out-state closure of the thinning "
         "handlers; backward slices (reaching definitions across helpers and attributes) classifying each side as "
